@@ -13,7 +13,7 @@ def _roots(P, b, provs):
     work = [(b, t, 0) for t in provs]
     while work:
         bb, t, d = work.pop()
-        for g in P.global_cell(bb, t):
+        for g in P.global_cell(bb, t, through_helpers=True):
             gb = P.bodies[g[0]]
             if g[1] == "agg" and d < 4:
                 st = gb.blocks[g[2][0]]["stmts"][g[2][1]]["rv"]
@@ -38,7 +38,19 @@ def _any_alias(A, B):
     return any(_alias(x, y) for x in A for y in B)
 
 
-def _closure_capture_roots(P, cl_body):
+def _closure_capture_roots(P, cl_body, view=None):
+    """roots of what the closure captures; when `view` (an inlined body) contains the closure's
+    creation statement, the captures are resolved in that frame (so that they can be compared with
+    other values of the same activation even if the closure is built inside an inlined helper)."""
+    if view is not None:
+        for i in sorted(view.reach):
+            for s_ in view.blocks[i]["stmts"]:
+                if s_["k"] == "assign" and s_["rv"]["k"] == "agg" and s_["rv"].get("ak") == "closure" \
+                        and s_["rv"]["def"] == cl_body.id:
+                    out = set()
+                    for o in s_["rv"]["ops"]:
+                        out |= _roots(P, view, view.operand_prov(o))
+                    return out
     cr = P.created.get(cl_body.id)
     if not cr:
         return set()
@@ -49,10 +61,37 @@ def _closure_capture_roots(P, cl_body):
     return out
 
 
+def _module_of(b):
+    """source module of a body (stable under function renames / helper extraction inside the file)"""
+    parts = norm(b.root).lstrip("<").split("::")
+    if parts[0] in ("operators", "subjects", "observables", "utils", "schedulers", "internals") and len(parts) > 1:
+        return parts[0] + "::" + parts[1]
+    return parts[0]
+
+
+def _closures_in_view(P, b):
+    """closures created by b (including by helpers inlined into it) and everything nested in them"""
+    out, seen = [], set()
+    for i in sorted(b.reach):
+        for s_ in b.blocks[i]["stmts"]:
+            if s_["k"] == "assign" and s_["rv"]["k"] == "agg" and s_["rv"].get("ak") == "closure":
+                cb = P.bodies.get(s_["rv"]["def"])
+                if cb is not None and cb.id not in seen:
+                    seen.add(cb.id)
+                    out.append(cb)
+                    for d in P.descendants(cb):
+                        if d.id not in seen:
+                            seen.add(d.id)
+                            out.append(d)
+    return out
+
+
 def discover(P, E):
     """[(family-key tuple, description)]"""
     found = []
-    for b in P.bodies.values():
+    for b in sorted(P.bodies.values(), key=lambda x: x.nid):
+        if b.id in P.absorbed:
+            continue
         for c in b.calls:
             table = ROLE_API.get(c.path, {})
             for i, role in table.items():
@@ -63,14 +102,14 @@ def discover(P, E):
                     continue
                 clb = P.bodies[cl]
                 R = _roots(P, b, b.operand_prov(c.args[0]))
-                caps = _closure_capture_roots(P, clb)
-                rootfn = norm(b.root)
+                caps = _closure_capture_roots(P, clb, view=b)
+                rootfn = _module_of(b)
                 # shape 1: captures (an aggregate holding) an alias of the receiver
                 if _any_alias(caps, R):
                     found.append(((rootfn, role, "captures-receiver"), "%s installs a %s closure on a receiver the closure itself owns" % (b.nid, role)))
                     continue
                 # shape 2/3: captures a cell X that (in this activation) comes to own the receiver
-                scope = [b] + P.descendants(b)
+                scope = [b] + _closures_in_view(P, b)
                 hit = None
                 for x in scope:
                     for k in x.calls:
@@ -83,7 +122,7 @@ def discover(P, E):
                         for a in k.args[1:]:
                             acl = ty_closure(a.get("t"))
                             if acl and acl in P.bodies:
-                                if _any_alias(_closure_capture_roots(P, P.bodies[acl]), R):
+                                if _any_alias(_closure_capture_roots(P, P.bodies[acl], view=x), R):
                                     hit = hit or "receives-closure-owning-receiver"
                                 continue
                             vr = _roots(P, x, x.operand_prov(a))
@@ -113,7 +152,7 @@ def discover(P, E):
     if no is not None:
         for c in no.calls:
             if c.path == "std::collections::HashMap::insert":
-                found.append(((SCTL + "::new_observer", "UNSCRIBER", "entry-owns-observer"), "unscribers entry owns the upstream observer"))
+                found.append((("internals::stream_controller", "UNSCRIBER", "entry-owns-observer"), "unscribers entry owns the upstream observer"))
     return found
 
 
@@ -125,7 +164,7 @@ def _call_chain_owns(P, E, b, bb, R, depth=0):
         return False
     for a in c.args:
         acl = ty_closure(a.get("t"))
-        if acl and acl in P.bodies and _any_alias(_closure_capture_roots(P, P.bodies[acl]), R):
+        if acl and acl in P.bodies and _any_alias(_closure_capture_roots(P, P.bodies[acl], view=b), R):
             return True
     if c.args:
         for t in b.operand_prov(c.args[0]):
@@ -136,18 +175,18 @@ def _call_chain_owns(P, E, b, bb, R, depth=0):
 
 # The reviewed cycle table (DESIGN 6 C17): family key -> (cycle id, cut obligation)
 REVIEWED = {
-    (SCTL + "::new", "TEARDOWN", "captures-receiver"): ("#1", "K1"),
-    (SCTL + "::new_observer", "UNSCRIBER", "entry-owns-observer"): ("#2", "K2"),
-    ("subjects::subject::Subject::observable", "TEARDOWN", "stores-receiver"): ("#3", "K4"),
-    ("subjects::behavior_subject::BehaviorSubject::observable", "TEARDOWN", "stores-subscription-owning-receiver"): ("#4", "K5"),
-    ("subjects::replay_subject::ReplaySubject::observable", "TEARDOWN", "stores-subscription-owning-receiver"): ("#4", "K5"),
-    ("operators::ref_count::RefCount::set_ref_count", "COUNT_UP", "captures-receiver"): ("#5", "K6"),
-    ("operators::replay::Replay::set_ref_count", "COUNT_UP", "captures-receiver"): ("#5", "K6"),
-    ("operators::ref_count::RefCount::set_ref_count", "COUNT_DOWN", "stores-subscription-owning-receiver"): ("#5b", "K6"),
-    ("operators::replay::Replay::set_ref_count", "COUNT_DOWN", "stores-subscription-owning-receiver"): ("#5b", "K6"),
-    ("operators::observe_on::ObserveOn::execute", "ON_FINALIZE", "receives-closure-owning-receiver"): ("#6", "K2"),
-    ("operators::subscribe_on::SubscribeOn::execute", "ON_FINALIZE", "receives-closure-owning-receiver"): ("#6", "K2"),
-    ("operators::debounce::Debounce::execute", "ON_FINALIZE", "receives-closure-owning-receiver"): ("#6", "K2"),
+    ("internals::stream_controller", "TEARDOWN", "captures-receiver"): ("#1", "K1"),
+    ("internals::stream_controller", "UNSCRIBER", "entry-owns-observer"): ("#2", "K2"),
+    ("subjects::subject", "TEARDOWN", "stores-receiver"): ("#3", "K4"),
+    ("subjects::behavior_subject", "TEARDOWN", "stores-subscription-owning-receiver"): ("#4", "K5"),
+    ("subjects::replay_subject", "TEARDOWN", "stores-subscription-owning-receiver"): ("#4", "K5"),
+    ("operators::ref_count", "COUNT_UP", "captures-receiver"): ("#5", "K6"),
+    ("operators::replay", "COUNT_UP", "captures-receiver"): ("#5", "K6"),
+    ("operators::ref_count", "COUNT_DOWN", "stores-subscription-owning-receiver"): ("#5b", "K6"),
+    ("operators::replay", "COUNT_DOWN", "stores-subscription-owning-receiver"): ("#5b", "K6"),
+    ("operators::observe_on", "ON_FINALIZE", "receives-closure-owning-receiver"): ("#6", "K2"),
+    ("operators::subscribe_on", "ON_FINALIZE", "receives-closure-owning-receiver"): ("#6", "K2"),
+    ("operators::debounce", "ON_FINALIZE", "receives-closure-owning-receiver"): ("#6", "K2"),
 }
 
 
@@ -156,12 +195,15 @@ def k_self_cycle(P, E):
                                    "receiver are discovered and must be in the reviewed table (each has a cut obligation)")
     found = discover(P, E)
     keys = {k for k, _ in found}
+    seen_k = set()
     for k, d in found:
+        if k in seen_k:
+            continue
+        seen_k.add(k)
         r.instance(k, True, d)
         if k not in REVIEWED:
             r.violate(k + ("undiscussed ownership cycle",),
-                      "%s: a new closure-owns-its-receiver installation with no reviewed cut obligation" % d,
-                      body=P.body(k[0]))
+                      "%s: a new closure-owns-its-receiver installation with no reviewed cut obligation" % d)
     for k in REVIEWED:
         if k not in keys:
             r.error("reviewed cycle %s %s not rediscovered (discovery drift: fail closed)" % (REVIEWED[k][0], k))
@@ -225,10 +267,16 @@ def k5_relay_cut(P, E):
             r.error("anchor missing: %s" % root)
             continue
         n = 0
-        for b in P.descendants(rb):
-            roles = E.role_of(b.id)
-            if not any(x in ("USER_E", "USER_C") for x in roles):
-                continue
+        from rules_subject import source_closure_of
+        srcb = source_closure_of(P, root)
+        relays = []
+        for c in (srcb.calls if srcb is not None else []):
+            if atom(c) == "subscribe":
+                for i in (2, 3):
+                    cl = c.arg_closure(i)
+                    if cl in P.bodies:
+                        relays.append(P.bodies[cl])
+        for b in relays:
             terms = [c for c in b.calls if atom(c) in ("obs_error", "obs_complete")]
             cuts = [c.bb for c in b.calls if atom(c) == "obs_unsubscribe"]
             for c in terms:
@@ -259,7 +307,7 @@ def k6_connect_cycle(P, E):
             for s in b.blocks[i]["stmts"]:
                 if s["k"] == "assign" and len(s["lhs"]) > 1:
                     for t in b.place_prov(s["lhs"]):
-                        for g in P.global_cell(b, t):
+                        for g in P.global_cell(b, t, through_helpers="add"):
                             if "on_subscribe" in g[3]:
                                 rv = s["rv"]
                                 val = None
